@@ -51,7 +51,8 @@ def nonzero_alt(n):
 
 def run(ck, ctx):
     ck.explanation = EXPLANATION
-    E = EasCtx(ctx)
+    # invocations that differ in the cloud callable only are one and the same call for this property (C09 looks at it)
+    E = EasCtx(ctx, ignore_params=("cloudf",))
     I = E.I
     g = I.g
     func = "EAS.__call__"
